@@ -89,6 +89,8 @@ def fingerprint(e: BaseException) -> dict:
 
     if isinstance(e, RecursionError):
         c = collections.Counter(s for s in (sym_of(f) for f in ep[-300:]) if s)
+        if not c:   # the recursion is inside a helper: take the innermost token below it
+            c = collections.Counter([s for s in (sym_of(f) for f in reversed(ep)) if s][:1])
         return {'exc': exc, 'where': 'recursion', 'sym': c.most_common(1)[0][0] if c else None}
     if not ep:
         f = frames[-1] if frames else None
